@@ -118,7 +118,7 @@ fn dispatch(program_id: &Pubkey, accounts: &[AccountInfo], data: &[u8]) -> Progr
         spl_token_2022::processor::Processor::process(program_id, accounts, data)
     } else if *program_id == solana_program::system_program::ID {
         system_process(accounts, data)
-    } else if *program_id == wrapper_program_id() {
+    } else if *program_id == wrapper_program_id() || *program_id == marginfi::constants::MOCKS_PROGRAM_ID {
         wrapper_process(accounts, data)
     } else if *program_id == crate::venue::drift::DRIFT {
         crate::venue::drift::process(accounts, data)
